@@ -52,12 +52,13 @@ def main():
             os.makedirs(os.path.join(wt, "SEEDS"), exist_ok=True)
             shutil.copytree(seed, os.path.join(wt, "SEEDS", name))
             rc1, o1 = sh(demo, wt)
-            out["demo_with_change"] = "fail" if rc1 != 0 else "PASSES(unexpected)"
+            failed = lambda rc, o: rc != 0 or "--- FAIL" in o or "\nFAIL" in o or o.startswith("FAIL")  # (a demo_cmd may end with a clean-up command)
+            out["demo_with_change"] = "fail" if failed(rc1, o1) else "PASSES(unexpected)"
             out["demo_output_with_change"] = "\n".join([l for l in o1.splitlines() if l.strip()][:12])[:1500]
             # 3. the demonstration without the change
             sh("git apply -R %s" % patch, wt)
             rc0, o0 = sh(demo, wt)
-            out["demo_without_change"] = "pass" if rc0 == 0 else "FAIL(%d): %s" % (rc0, o0[-300:])
+            out["demo_without_change"] = "pass" if not failed(rc0, o0) else "FAIL(%d): %s" % (rc0, o0[-300:])
             out["ran"].append("scratch worktree %s: git apply patch.diff; go build ./... && go test -count=1 ./... (repository suite, must pass); demo_cmd with the change (must fail); git apply -R; demo_cmd without the change (must pass)" % wt)
         finally:
             sh("git -C /repo worktree remove --force %s" % wt, "/")
